@@ -286,6 +286,9 @@ def layout(ctx: Any) -> List[Ob]:
     obs.append(ob(R, wc, 'self.write_short(class_ ...)', 'the class is one 16-bit field', all(call_name(c) in ('write_short',) for c in walk_local_ordered(wc.node) if isinstance(c, ast.Call))))
     wt = out.methods['_write_ttl']
     obs.append(ob(R, wt, 'self._write_int(...)', 'the TTL is one 32-bit field', [call_name(c) for c in walk_local_ordered(wt.node) if isinstance(c, ast.Call) and call_name(c).startswith(('_write', 'write'))] == ['_write_int']))
+    from .c13 import write_ttl_obligations
+
+    obs.extend(write_ttl_obligations(ctx, R))
 
     def read_frame(f: FuncInfo, nfixed: int) -> Tuple[List[Tuple[str, str, int]], Optional[int]]:
         """Tokens read per entry; each local is named by the role it plays: the parameter of the
